@@ -26,7 +26,7 @@ EDGES = {("none", "pending"), ("pending", "in_flight"), ("in_flight", "pending")
 TERMINAL = {"synced", "skipped", "failed", "none"}
 ACTIONS = ("StartPass", "StopFaults", "Recover", "Discover", "Page", "Reconcile", "MarkPresent", "MarkConflict",
            "Send", "Put", "After", "Fail", "Crash", "Env")
-MUST_APPLY = ("crash", "reconcile:drop", "reconcile:dropAfter", "put:dropBefore", "put:dropAfter", "put:short",
+MUST_APPLY = ("crash", "reconcile:drop", "reconcile:dropAfter", "put:dropBefore", "put:dropAfter", "put:short", "put:shortDrop",
               "put:corrupt", "put:backpressure", "put:idxfail", "env:spokevanish", "env:hubvanish",
               "env:hubcompact", "env:foreign", "env:foreignraw")
 
@@ -116,9 +116,14 @@ def run(ctx):
     g3 = ctx.tlc("edgesync", "EdgeSync", "Gen_hub.cfg", mode="simulate", num=100 if quick else 600, depth=400,
                  timeout=2400, workers=4)
     n3 = take(g3, "simhub")
+    # complete two-file graph for the lost-acknowledgement x hub-side-loss corner (no crash, drop faults only)
+    g4 = ctx.tlc("edgesync", "EdgeSync", "Gen_two.cfg", timeout=2400, workers=6)
+    n4 = take(g4, "two")
+    if not n4:
+        raise InfraError("Gen_two produced nothing")
     if not n1 or not n2 or not n3:
         raise InfraError("schedule generation produced nothing (%d/%d/%d)" % (n1, n2, n3))
-    ctx.note("schedules", {"one_file_exhaustive": n1, "two_files_simulated": n2, "two_files_simulated_hub_env": n3,
+    ctx.note("schedules", {"one_file_exhaustive": n1, "two_files_simulated": n2, "two_files_simulated_hub_env": n3, "two_files_exhaustive_drop_x_hubloss": n4,
                            "gen_one_states": g1.distinct})
     ctx.log("TLC produced %d distinct schedules (%d exhaustive one-file, %d + %d simulated two-file)" % (len(scen), n1, n2, n3))
 
@@ -218,7 +223,7 @@ def run(ctx):
 
     ctx.note("bounds", {"files": "1 (exhaustive schedules) / 2 (model checking, simulated schedules)",
                         "runs_with_faults": "<=2 quick, <=3 thorough", "faults": "<=2 quick (one-file), <=3",
-                        "crash": 1, "environment_actions": 1, "max_attempts": 2, "file_size": "2 chunks of 24 bytes"})
+                        "crash": 1, "environment_actions": 1, "max_attempts": 3, "file_size": "3 chunks of 24 bytes"})
     ctx.note("rule", "verdict = TLC refuses a real trace against EdgeSyncProp, or a direct end-state check of the real "
                      "ledger/hub storage fails; distinct_nontrivial counts distinct (applied fault set => end state) classes")
     ctx.assume("one agent pass at a time (MaxConcurrent=1, no overlapping passes); the in-process transport stands for "
